@@ -1,1 +1,2 @@
 import TsModel.Storage
+import TsModel.Serial
